@@ -225,6 +225,22 @@ def run(ck):
                     ck.disagree(key='CubicBezier.length/scipy-quad-fooled-by-a-sharp-speed-minimum', site='svgpathtools/path.py:length',
                                 what='[scipy] %r: length(0,.375)+length(.375,1) = %r, length() = %r' % (sq, sq.length(0, 0.375) + sq.length(0.375, 1), sq.length()),
                                 case={'z': [str(w) for w in zq], 'cfg': cfg}, expected=sq.length(), observed=sq.length(0, 0.375) + sq.length(0.375, 1), driver='generic')
+            # a control point reassigned in place to a value that hashes like the old one (hash(-1.0) == hash(-2.0)) between two length() calls
+            for z1_, z2_ in (([-1 + 2j, 3 + 4j, 6 - 1j], [-2 + 2j, 3 + 4j, 6 - 1j]), ([0j, -1 + 2j, 5 + 0j], [0j, -2 + 2j, 5 + 0j]), ([0j, 2 - 1j, 5 + 0j], [0j, 2 - 2j, 5 + 0j]),
+                             ([-1 - 1j, 2 + 3j, 4 + 4j, 7 + 0j], [-2 - 2j, 2 + 3j, 4 + 4j, 7 + 0j]), ([0j, 1 + 3j, 4 - 1j, 6 + 0j], [0j, 1 + 3j, 4 - 2j, 6 + 0j]), ([0j, -1 + 0j], [0j, -2 + 0j])):
+                sgh = make(z1_)
+                ck.case(fp=('hash-colliding-reassignment', str(z1_), cfg), nontrivial=True)
+                try:
+                    sgh.length()
+                    for nm_, w in zip({2: ('start', 'end'), 3: ('start', 'control', 'end'), 4: ('start', 'control1', 'control2', 'end')}[len(z1_)], z2_):
+                        setattr(sgh, nm_, w)
+                    gl_, pl_, wl_ = sgh.length(), sp.Path(sgh).length(), make(z2_).length()
+                except Exception as e:      # noqa
+                    gl_, pl_, wl_ = e, None, None
+                if isinstance(gl_, Exception) or not (abs(gl_ - wl_) <= 1e-9 * wl_) or not (abs(pl_ - wl_) <= 1e-9 * wl_):
+                    ck.disagree(key='%s.length/after-reassigning-a-control-point-in-place' % type(sgh).__name__, site='svgpathtools/path.py:length',
+                                what='[%s] %r measured, control points set to %r: length() = %r, Path(seg).length() = %r, a new segment %r' % (cfg, z1_, z2_, gl_, pl_, wl_),
+                                case={'z1': [str(w) for w in z1_], 'z2': [str(w) for w in z2_], 'cfg': cfg}, expected=wl_, observed=repr(gl_), driver='generic')
             # paths: sum of the segments
             segs = [sp.Line(0j, 3 + 4j), sp.QuadraticBezier(3 + 4j, 6 + 8j, 3 + 4j), sp.CubicBezier(3 + 4j, 1 + 1j, 5 - 2j, 7 + 0j),
                     sp.Arc(7 + 0j, 5 + 5j, 0, False, True, 13 + 8j)]
